@@ -23,16 +23,19 @@ PROP = dict(
     assumptions=[
         "callbacks that block on something outside the engine (e.g. serve_grpc.go's `retch <- err` with no receiver) are outside the model",
         "histories end with Stop; calls issued after Stop (which block forever, the loop is gone) are outside the property",
-        "correspondence run: states are {} or small naturals; 7 expression shapes; 1-4 clients, 3-25 operations; thorough adds "
-        "concurrently issued histories of a restricted class for which only interleaving-independent facts are compared",
+        "correspondence run: states are {} or small naturals; 7 expression shapes; 1-4 clients, 3-25 operations. Both tiers include "
+        "(a) 'par' cases: clients on separate goroutines, a restricted class for which only interleaving-independent facts are "
+        "compared, and (b) 'race' cases: 2-4 clients issue state-dependent updates ($+k, $*2, n) at the same moment for 2-4 rounds, "
+        "the harness holding every evaluation at a gate until all of the round have started or 30 ms passed; by the merge theorems "
+        "the history is client 0's prefix followed by one permutation per round, the model runs all of them (<= 576) and observer "
+        "1's log must be the state chain of one of them (a lost or stale update, or a reordered notification, is outside the set)",
     ],
     level_text="Proof: Lean theorems, all at full strength, over all finite message histories, all callback oracles (return nil / error / "
                "panic / cancel called during the callback) and all map enumeration orders for the transliterated repaired engine loop: "
                "never crashes, never wedges, every Update gets exactly one reply before anything else happens, effects in acknowledgement "
                "order, per-observer delivery closed form, isolation, onclose exactly once, refinement of the sequential specification; every "
                "schedule of concurrent clients is such a history (merge theorems); machine-checked witnesses that the loop before each "
-               "repair deadlocks / crashes. The model includes the re-entrant-cancel repair (commit d1370e0 of branch c17-reenter); on a tree "
-               "without it the re-entrant cases are reported as KF-engine-reentrant-cancel. Tied to engine/engine.go by running the real "
+               "repair deadlocks / crashes. Tied to engine/engine.go by running the real "
                "engine on generated histories on every run.",
     design_ref="DESIGN.md section 6, C17",
     watch=["engine.Start", "engine.Engine.Stop", "engine.Engine.Hangup", "engine.Engine.Update", "engine.Engine.Observe",
